@@ -4,8 +4,9 @@
      entry j      = bytes [j * entry_size, +entry_size) of the data block
      value        = read_value at the property's offset
    Fields: unsigned / signed integers, content addresses, each either stored in the entry or constant
-   (stored once in the descriptor, zero bytes in the entry), and padding.  Arrays and variants have
-   their own theorems (Values.v array_roundtrip, Variants.v); they are not composed here. *)
+   (stored once in the descriptor, zero bytes in the entry), arrays (length + inline prefix + id of the
+   rest in a value store; or the whole value in an indexed store) and padding.  Schemas with variants
+   are composed in EntryStoreVariants.v. *)
 From Coq Require Import List Arith NArith ZArith Bool Lia ZifyN ZifyBool ZifyNat.
 From Jbk Require Import Base.ListExtra Base.Bytes Base.Parser Base.Utf8 Format.Structs Content.Pack Dir.Layout Dir.Descr Dir.Values.
 Import ListNotations.
@@ -19,6 +20,8 @@ Inductive wfield :=
 | FSInt (size : nat) (name : list N) (z : Z)
 | FSConst (size : nat) (name : list N) (d : Z)
 | FContent (cs ps : nat) (name : list N) (pack content : N)
+| FArray (ls fixed ks : nat) (si : N) (name : list N) (bytes : list N) (id : N)   (* length, inline prefix, id of the rest *)
+| FIndirect (ks : nat) (si : N) (name : list N) (bytes : list N) (id : N)          (* whole value in store si *)
 | FPad (size : nat).
 
 Definition wprop_of (f : wfield) : wprop :=
@@ -28,6 +31,8 @@ Definition wprop_of (f : wfield) : wprop :=
   | FSInt size name _ => WSInt size None name
   | FSConst size name d => WSInt size (Some d) name
   | FContent cs ps name _ _ => WContent cs ps None name
+  | FArray ls fixed ks si name _ _ => WArray (Some ls) fixed (Some (ks, si)) name
+  | FIndirect ks si name _ _ => WArray None 0 (Some (ks, si)) name
   | FPad size => WPadding size
   end.
 Definition ser_field (f : wfield) : list N :=
@@ -37,6 +42,8 @@ Definition ser_field (f : wfield) : list N :=
   | FSInt size _ z => ser_sint size None z
   | FSConst _ _ _ => []
   | FContent cs ps _ pack content => ser_content ps cs None pack content
+  | FArray ls fixed ks si _ bytes id => ser_array (Some ls) fixed (Some (ks, si)) (lenN bytes) (firstn fixed bytes) id
+  | FIndirect ks si _ _ id => ser_array None 0 (Some (ks, si)) 0 [] id
   | FPad size => zerosN size
   end.
 Definition value_of (f : wfield) : option (list N * value) :=
@@ -44,21 +51,29 @@ Definition value_of (f : wfield) : option (list N * value) :=
   | FUInt _ name v | FUConst _ name v => Some (name, VUnsigned v)
   | FSInt _ name z | FSConst _ name z => Some (name, VSigned z)
   | FContent _ _ name pack content => Some (name, VContent pack content)
+  | FArray _ _ _ _ name bytes _ | FIndirect _ _ name bytes _ => Some (name, VArray bytes)
   | FPad _ => None
   end.
-(* the value fits the width of its column (what the creator's column statistics guarantee: Values.v *_width_fits) *)
-Definition wf_field (f : wfield) : Prop :=
+(* the value fits the width of its column (what the creator's column statistics guarantee: Values.v *_width_fits);
+   for an array, the value store named by the column holds the rest of the value under the recorded id *)
+Definition wf_field (store : N -> res vstore) (f : wfield) : Prop :=
   match f with
   | FUInt size _ v => v < 256 ^ N.of_nat size
   | FSInt size _ z => (0 < size)%nat /\ fits_signed size z
   | FContent cs ps _ pack content => pack < 256 ^ N.of_nat ps /\ pack < 65536 /\ content < 256 ^ N.of_nat cs
+  | FArray ls fixed ks si _ bytes id =>
+      lenN bytes < 256 ^ N.of_nat ls /\ id < 256 ^ N.of_nat ks /\
+      exists s, store si = Ok s /\ vs_get s id (Some (lenN bytes - N.min (lenN bytes) (N.of_nat fixed))) = Ok (skipn fixed bytes)
+  | FIndirect ks si _ bytes id =>
+      id < 256 ^ N.of_nat ks /\ exists s, store si = Ok s /\ vs_get s id None = Ok bytes
   | _ => True
   end.
 
-Lemma ser_field_length f : wf_field f -> length (ser_field f) = rp_size (raw_of (wprop_of f)).
+Lemma ser_field_length store f : wf_field store f -> length (ser_field f) = rp_size (raw_of (wprop_of f)).
 Proof.
-  destruct f; cbn [ser_field wprop_of raw_of rp_size wp_size]; intros W;
-    unfold ser_uint, ser_sint, ser_content; rewrite ?app_length, ?le_enc_length, ?zerosN_length; reflexivity || lia.
+  destruct f; cbn [ser_field wprop_of raw_of rp_size wp_size opt_nat]; intros W;
+    unfold ser_uint, ser_sint, ser_content, ser_array;
+    rewrite ?app_length, ?le_enc_length, ?zerosN_length, ?firstn_length; cbn [length]; reflexivity || lia.
 Qed.
 
 Definition shown (fs : list wfield) : list (list N * res value) :=
@@ -71,18 +86,18 @@ Lemma read_props_cons e p ps : read_props store e (p :: ps) = (pr_name p, read_v
 Proof. reflexivity. Qed.
 
 (* every field of an entry reads back, whatever precedes and follows the entry in the data block *)
-Theorem fields_roundtrip fs : forall pre post, Forall wf_field fs ->
+Theorem fields_roundtrip fs : forall pre post, Forall (wf_field store) fs ->
   read_props store (pre ++ concat (map ser_field fs) ++ post) (place (length pre) (map (fun f => raw_of (wprop_of f)) fs))
   = shown fs.
 Proof.
   induction fs as [|f fs IH]; intros pre post W; [reflexivity|].
   inversion W as [|? ? Wf Wfs]; subst. cbn [map concat place shown flat_map].
-  rewrite <- (ser_field_length f Wf).
+  rewrite <- (ser_field_length store f Wf).
   assert (Rest : read_props store (pre ++ (ser_field f ++ concat (map ser_field fs)) ++ post)
                    (place (length pre + length (ser_field f)) (map (fun f0 => raw_of (wprop_of f0)) fs)) = shown fs).
   { rewrite <- app_assoc. rewrite (app_assoc pre (ser_field f)). rewrite <- app_length. apply IH. exact Wfs. }
   fold (shown fs).
-  destruct f as [size name v|size name d|size name z|size name d|cs ps name pack content|size];
+  destruct f as [size name v|size name d|size name z|size name d|cs ps name pack content|ls fixed ks si name bytes id|ks si name bytes id|size];
     cbn [wprop_of raw_of rp_kind rp_name value_of app]; rewrite ?read_props_cons, Rest; cbn [pr_name]; try reflexivity.
   - (* unsigned *) f_equal. f_equal. rewrite <- !app_assoc.
     exact (uint_roundtrip store pre (concat (map ser_field fs) ++ post) size v name Wf).
@@ -90,6 +105,12 @@ Proof.
     exact (sint_roundtrip store pre (concat (map ser_field fs) ++ post) size z name Ws Wz).
   - (* content address *) f_equal. f_equal. rewrite <- !app_assoc. destruct Wf as (W1 & W2 & W3).
     exact (content_roundtrip store pre (concat (map ser_field fs) ++ post) ps cs pack content name W1 W2 W3).
+  - (* array: length, inline prefix, rest from the value store *) f_equal. f_equal. rewrite <- !app_assoc.
+    destruct Wf as (W1 & W2 & s & W3 & W4).
+    exact (array_roundtrip store pre (concat (map ser_field fs) ++ post) ls fixed ks si bytes id name s W1 W2 W3 W4).
+  - (* indirect array *) f_equal. f_equal. rewrite <- !app_assoc.
+    destruct Wf as (W1 & s & W2 & W3).
+    exact (indirect_array_roundtrip store pre (concat (map ser_field fs) ++ post) ks si bytes id name s W1 W2 W3).
 Qed.
 End Entry.
 
@@ -110,31 +131,31 @@ Definition flat_layout (count : N) (shape : list wprop) : layout :=
   {| l_count := count; l_checked := false; l_entry_size := psize (map raw_of shape);
      l_common := place 0 (map raw_of shape); l_variants := None |}.
 
-Definition row_has_shape (shape : list wprop) (row : list wfield) : Prop :=
-  map wprop_of row = shape /\ Forall wf_field row.
+Definition row_has_shape (store : N -> res vstore) (shape : list wprop) (row : list wfield) : Prop :=
+  map wprop_of row = shape /\ Forall (wf_field store) row.
 
-Lemma psize_fields row : Forall wf_field row ->
+Lemma psize_fields store row : Forall (wf_field store) row ->
   psize (map raw_of (map wprop_of row)) = length (concat (map ser_field row)).
 Proof.
   induction 1 as [|f row Wf W IH]; [reflexivity|]. cbn [map psize fold_right concat].
-  fold (psize (map raw_of (map wprop_of row))). rewrite app_length, IH, (ser_field_length f Wf). reflexivity.
+  fold (psize (map raw_of (map wprop_of row))). rewrite app_length, IH, (ser_field_length store f Wf). reflexivity.
 Qed.
 
 (* EVERY entry of a store written with a flat schema reads back with exactly the values it was given *)
 Theorem entry_store_roundtrip store shape (rows : list (list wfield)) j row :
-  Forall (row_has_shape shape) rows -> nth_error rows j = Some row ->
+  Forall (row_has_shape store shape) rows -> nth_error rows j = Some row ->
   let ly := flat_layout (N.of_nat (length rows)) shape in
   let data := concat (map (fun r => concat (map ser_field r)) rows) in
   exists e, entry_bytes ly data (N.of_nat j) = Some e /\ read_entry store ly e = (None, shown row).
 Proof.
   intros Hs Hj ly data.
-  assert (Hrow : row_has_shape shape row).
+  assert (Hrow : row_has_shape store shape row).
   { rewrite Forall_forall in Hs. apply Hs. eapply nth_error_In; exact Hj. }
   destruct Hrow as [Sh Wr].
   assert (Lj : (j < length rows)%nat) by (apply nth_error_Some; congruence).
   assert (Hw : forall r, In r rows -> length (concat (map ser_field r)) = l_entry_size ly).
   { intros r Hr. rewrite Forall_forall in Hs. destruct (Hs r Hr) as [Sr Wr'].
-    unfold ly, flat_layout. cbn [l_entry_size]. rewrite <- Sr. symmetry. apply psize_fields. exact Wr'. }
+    unfold ly, flat_layout. cbn [l_entry_size]. rewrite <- Sr. symmetry. apply (psize_fields store). exact Wr'. }
   destruct (sub_concat_fixed (fun r => concat (map ser_field r)) (l_entry_size ly) rows Hw j row Hj) as (pre & post & E & Lp).
   exists (concat (map ser_field row)). split.
   - unfold entry_bytes. cbn [l_count ly flat_layout].
@@ -183,23 +204,34 @@ Proof.
 Qed.
 Close Scope N_scope.
 
-(* non-vacuity: two entries, four columns (one constant), through descriptors, data block and reader *)
+(* non-vacuity: two entries, five columns (one constant, one array split between the entry and a value store),
+   through descriptors, data block and reader *)
 Open Scope N_scope.
 Definition ex_shape : list wprop :=
-  [WUInt 2 None [97]; WSInt 1 None [98]; WUInt 1 (Some 7) [107]; WContent 1 1 None [99]].
+  [WUInt 2 None [97]; WSInt 1 None [98]; WUInt 1 (Some 7) [107]; WContent 1 1 None [99]; WArray (Some 1%nat) 2 (Some (1%nat, 0)) [115]].
+Definition ex_store : N -> res vstore := fun k => if k =? 0 then Ok (VSPlain [108; 108; 111]) else Err EFormat.
 Definition ex_rows : list (list wfield) :=
-  [[FUInt 2 [97] 1000; FSInt 1 [98] (-3)%Z; FUConst 1 [107] 7; FContent 1 1 [99] 1 5];
-   [FUInt 2 [97] 65535; FSInt 1 [98] 127%Z; FUConst 1 [107] 7; FContent 1 1 [99] 1 0]].
-Example ex_rows_have_the_shape : Forall (row_has_shape ex_shape) ex_rows.
+  [[FUInt 2 [97] 1000; FSInt 1 [98] (-3)%Z; FUConst 1 [107] 7; FContent 1 1 [99] 1 5; FArray 1 2 1 0 [115] [104; 101; 108; 108; 111] 0];
+   [FUInt 2 [97] 65535; FSInt 1 [98] 127%Z; FUConst 1 [107] 7; FContent 1 1 [99] 1 0; FArray 1 2 1 0 [115] [120] 3]].
+Example ex_rows_have_the_shape : Forall (row_has_shape ex_store ex_shape) ex_rows.
 Proof.
-  repeat constructor; cbn; try lia; try (unfold fits_signed; cbn; lia).
+  repeat constructor; cbn; try lia; try (unfold fits_signed; cbn; lia); try (eexists; split; reflexivity).
 Qed.
 Example ex_layout_parses :
-  p_layout (ser_flat_tail 2 5 ex_shape) = Ok (flat_layout 2 ex_shape, []).
+  p_layout (ser_flat_tail 2 9 ex_shape) = Ok (flat_layout 2 ex_shape, []).
 Proof. vm_compute. reflexivity. Qed.
-Example ex_second_entry_reads_back store :
-  exists e, entry_bytes (flat_layout 2 ex_shape) (concat (map (fun r => concat (map ser_field r)) ex_rows)) 1 = Some e /\
-            read_entry store (flat_layout 2 ex_shape) e =
-              (None, [([97], Ok (VUnsigned 65535)); ([98], Ok (VSigned 127)); ([107], Ok (VUnsigned 7)); ([99], Ok (VContent 1 0))]).
-Proof. exact (entry_store_roundtrip store ex_shape ex_rows 1 _ ex_rows_have_the_shape eq_refl). Qed.
+Example ex_entries_read_back :
+  (exists e, entry_bytes (flat_layout 2 ex_shape) (concat (map (fun r => concat (map ser_field r)) ex_rows)) 0 = Some e /\
+             read_entry ex_store (flat_layout 2 ex_shape) e =
+               (None, [([97], Ok (VUnsigned 1000)); ([98], Ok (VSigned (-3))); ([107], Ok (VUnsigned 7)); ([99], Ok (VContent 1 5));
+                       ([115], Ok (VArray [104; 101; 108; 108; 111]))])) /\
+  (exists e, entry_bytes (flat_layout 2 ex_shape) (concat (map (fun r => concat (map ser_field r)) ex_rows)) 1 = Some e /\
+             read_entry ex_store (flat_layout 2 ex_shape) e =
+               (None, [([97], Ok (VUnsigned 65535)); ([98], Ok (VSigned 127)); ([107], Ok (VUnsigned 7)); ([99], Ok (VContent 1 0));
+                       ([115], Ok (VArray [120]))])).
+Proof.
+  split.
+  - exact (entry_store_roundtrip ex_store ex_shape ex_rows 0 _ ex_rows_have_the_shape eq_refl).
+  - exact (entry_store_roundtrip ex_store ex_shape ex_rows 1 _ ex_rows_have_the_shape eq_refl).
+Qed.
 Close Scope N_scope.
